@@ -523,6 +523,10 @@ func init() {
 			Spec{Kind: "i64", Repl: map[string]string{"r.start": "rstart", "len(resp.Entries)": "n"}})},
 		{"runWorker.batchStart", keyedFieldKernel(f, "Fetcher.runWorker", "EntryBatch", "Start", "workerBatchStart", "(rstart : Int)", "Int",
 			Spec{Kind: "i64", Repl: map[string]string{"r.start": "rstart"}})},
+		{"runWorker.decision", workerDecision(f, "Fetcher.runWorker", "fn", "workerDecision")},
+		{"Prepare.body", decisionChain(f, "Fetcher.Prepare", "prepareChain", "(cached sthFails : Bool)", "Nat", chainSpec{
+			Conds: map[string]string{"f.sth != nil": "cached"}, ErrCalls: map[string]string{".client.GetSTH": "sthFails"},
+			Rets: map[string]string{"f.sth, nil": "1", "nil, err": "2", "sth, nil": "0"}})},
 		{"Prepare.reset", ifInitCondKernel(f, "Fetcher.Prepare", []string{"f.opts.EndIndex"}, "prepareResets", "(treeSize endIndex : Int)",
 			Spec{Kind: "i64", Repl: map[string]string{"sth.TreeSize": "treeSize", "f.opts.EndIndex": "endIndex"}})},
 		{"updateSTH.lastSize", assignKernel(f, "Fetcher.updateSTH", "lastSize", "updateSTHLastSize", "(endIndex : Int)", "Int",
@@ -551,6 +555,21 @@ func init() {
 		{"NewPreorderedLogClient.idFunc", switchAssignTable(m, "NewPreorderedLogClient", "idFuncType", "ret.idFunc", "idFuncTable")},
 		{"idHashCertData.arg", callArgSources(m, "idHashCertData", "sha256.Sum256", "idHashCertDataArg")},
 		{"idHashLeafIndex.encode", callArgSources(m, "idHashLeafIndex", "binary.LittleEndian.PutUint64", "idHashLeafIndexEncode")},
+		{"verifyConsistency.body", decisionChain(c, "Controller.verifyConsistency", "verifyConsistencyChain", "(treeSize_ : Int) (noCheck proofErr proofBad : Bool)", "Nat", chainSpec{
+			Conds: map[string]string{"treeSize == 0": "(decide (treeSize_ = 0))", "c.opts.NoConsistencyCheck": "noCheck"},
+			ErrCalls: map[string]string{".GetSTHConsistency": "proofErr"},
+			Rets:     map[string]string{"nil": "0", "err": "1", "proof.VerifyConsistency(": "(if proofBad then 1 else 0)"}})},
+		{"fetchTail.head", decisionChain(c, "Controller.fetchTail", "fetchTailHead", "(rootFails prepareFails gateErr : Bool) (sthSize begin_ : Int)", "Nat", chainSpec{
+			To:       "var wg sync.WaitGroup",
+			Conds:    map[string]string{"sth.TreeSize <= begin": "(decide (sthSize ≤ begin_))", "err := c.verifyConsistency(": "gateErr"},
+			ErrCalls: map[string]string{".getRoot": "rootFails", ".Prepare": "prepareFails"},
+			Rets:     map[string]string{"0, err": "1", "begin, nil": "2"}, Fall: "0"})},
+		{"fetchTail.tail", decisionChain(c, "Controller.fetchTail", "fetchTailTail", "(runFails ctxDone : Bool)", "Nat", chainSpec{
+			From:     "defer cancel()",
+			Conds:    map[string]string{"err := cctx.Err() ; err != nil": "ctxDone"},
+			ErrCalls: map[string]string{"fetcher.Run": "runFails"},
+			Rets:     map[string]string{"0, err": "1", "0, fmt.Errorf(": "1", "sth.TreeSize, nil": "0"}})},
+		{"fetchTail.tailOrder", stmtOrder(c, "Controller.fetchTail", "defer cancel()", []string{"err = fetcher.Run(", "close(batches)", "wg.Wait()", "if err != nil", "if err := cctx.Err()", "return sth.TreeSize, nil"}, "fetchTailTailOrder")},
 		{"verifyConsistency.order", topLevelIfConds(c, "Controller.verifyConsistency", "gateOrder")},
 		{"verifyConsistency.args", callArgSources(c, "Controller.verifyConsistency", "proof.VerifyConsistency", "verifyConsistencyArgs")},
 		{"fetchTail.range", stmtsAfterKernel(c, "Controller.fetchTail", ".opts.FetcherOptions", []string{"klog.Infof(\"%s: fetching range"}, "fetchTailRange",
